@@ -43,11 +43,3 @@ package elgamal
 //@   assumed
 //@   purefn
 
-//@ func NewPublicKey
-//@   assumed
-//@   purefn
-
-//@ func NewSecretKey
-//@   assumed
-//@   purefn
-
